@@ -151,6 +151,18 @@ func TestCheck(t *testing.T) {
 			}
 		}
 	}
+	// A page spilled to the log and truncated away by its own transaction, then brought back by a later transaction that
+	// grows the database without writing it: readers - and the transaction file - find the spilled frame's content.
+	for _, ps := range []int{512, 4096} {
+		for _, s := range []uint32{3, 255} {
+			spill := prog.Op{Kind: "wtx", W: &pager.WTx{Frames: []uint32{s + 1, 1}, NewSize: s, Outcome: "commit"}}
+			regrow := prog.Op{Kind: "wtx", W: &pager.WTx{Frames: []uint32{1, 2}, NewSize: s + 2, FreeLeaves: true, Outcome: "commit"}}
+			shrinkGrow := []prog.Op{wtx([]uint32{1, s + 1, s + 2}, 0, 0, "commit"), wtx([]uint32{1}, s, 0, "commit"), regrow}
+			for _, ops := range [][]prog.Op{{spill, regrow, wtx([]uint32{2}, 0, 0, "commit")}, {spill, regrow, {Kind: "ckpt", Mode: "PASSIVE"}, {Kind: "restart"}}, shrinkGrow, append(append([]prog.Op{}, shrinkGrow...), prog.Op{Kind: "recover"})} {
+				cases = append(cases, prog.Case{PageSize: ps, Start: s, StartWAL: true, Ops: ops})
+			}
+		}
+	}
 	// Other connections trying to get in while a transaction is being captured (see prog.Case.Intrude).
 	for _, ps := range []int{512, 4096} {
 		for _, pre := range [][]prog.Op{{}, {wtx([]uint32{1, 2}, 0, 0, "commit"), {Kind: "ckpt", Mode: "PASSIVE"}}, {wtx([]uint32{1, 2, 3}, 0, 1, "commit"), {Kind: "ckpt", Mode: "RESTART"}}} {
